@@ -1,6 +1,7 @@
 package checks
 
 import (
+	"encoding/binary"
 	"bytes"
 	"fmt"
 	"strings"
@@ -33,6 +34,10 @@ type lsmTracer struct {
 	nCompact int
 	nGets    int
 	nScore, nScoreGE1 int
+	visits             []string        // (level num) pairs of the lookup in progress
+	sentVer            map[int64]bool // versions the driver knows
+	nVisits, nCharged  int
+	visitLens          map[int]int
 	bad      bool
 }
 
@@ -64,6 +69,10 @@ func attachTracer(c *Ctx, r *Runner) *lsmTracer {
 			t.capture(ev.Args)
 			t.q = append(t.q, traceEv{point: ev.Point, args: ev.Args})
 			t.mu.Unlock()
+		case "g.visit", "g.done":
+			t.mu.Lock()
+			t.q = append(t.q, traceEv{point: ev.Point, args: ev.Args})
+			t.mu.Unlock()
 		case "c.flush":
 			te := traceEv{point: ev.Point, args: ev.Args}
 			if m, ok := ev.Args[0].(*memdb.DB); ok && m != nil {
@@ -82,6 +91,8 @@ func attachTracer(c *Ctx, r *Runner) *lsmTracer {
 func (t *lsmTracer) reset() {
 	t.drain()
 	t.sent = map[int64]string{}
+	t.sentVer = map[int64]bool{}
+	t.visits = nil
 	t.mu.Lock()
 	t.seen, t.files = map[string]bool{}, map[string][]byte{}
 	t.mu.Unlock()
@@ -224,6 +235,10 @@ func (t *lsmTracer) drain() {
 			}
 			t.c.Lean(sb.String(), "ok")
 			t.nInstall++
+			if t.sentVer == nil {
+				t.sentVer = map[int64]bool{}
+			}
+			t.sentVer[v.ID] = true
 			// differential tie of the scoring (lean/GoLevel/Model/Score.lean): the model's computeCompaction on this version
 			// with the real trigger and level limits must leave the cLevel / cScore >= 1 the real one left
 			sb.Reset()
@@ -242,6 +257,37 @@ func (t *lsmTracer) drain() {
 			if v.ScoreGE1 {
 				t.nScoreGE1++
 			}
+		case "g.visit":
+			lvl, _ := ev.args[1].(int)
+			num, _ := ev.args[2].(int64)
+			t.visits = append(t.visits, fmt.Sprintf("%d %d", lvl, num))
+		case "g.done":
+			// differential tie of the lookup walk (lean/GoLevel/Model/Seek.lean): the tables version.get consulted, in order,
+			// and whether it charged the first one a seek
+			vid, _ := ev.args[0].(int64)
+			ik, _ := ev.args[1].([]byte)
+			tseek, _ := ev.args[2].(bool)
+			naux, _ := ev.args[3].(int)
+			clean, _ := ev.args[4].(bool)
+			vis := t.visits
+			t.visits = nil
+			if naux != 0 || !clean || len(ik) < 8 || !t.sentVer[vid] {
+				continue
+			}
+			num := binary.LittleEndian.Uint64(ik[len(ik)-8:])
+			charged := "none none"
+			if ts, ok := ev.args[5].([2]int64); ok && tseek {
+				charged = fmt.Sprintf("%d %d", ts[0], ts[1])
+			}
+			t.c.Lean(fmt.Sprintf("lsm visits %d %s %d %s %d %s", vid, gen.Hex(ik[:len(ik)-8]), num>>8, charged, len(vis), strings.Join(vis, " ")), "ok")
+			t.nVisits++
+			if tseek {
+				t.nCharged++
+			}
+			if t.visitLens == nil {
+				t.visitLens = map[int]int{}
+			}
+			t.visitLens[len(vis)]++
 		case "c.flush":
 			rec, _ := ev.args[1].(*leveldb.VerifRecord)
 			if rec == nil || len(rec.Added) != 1 {
